@@ -106,6 +106,34 @@ replay_bendcount.per_trace = True
 replay_bends_scene = replay_bendcount
 
 
+REPLAY_SIMPLIFY = r'''
+// Native replay: Polygon::simplify() on short orthogonal routes must keep every bend (every output segment axis-parallel).
+#include "libavoid/geomtypes.h"
+#include <cstdio>
+using namespace Avoid;
+int main() {
+  int bad = 0;
+  const double NOISE[] = {0.30000000000000004, 0.3 + 1e-15, 0.3 + 1e-13, 0.3 + 1e-9, 1.3};
+  for (int k = 0; k < 5; ++k) for (int len = 1; len <= 100; len *= 10) {
+    Polygon r(3); r.ps[0] = Point(0, 0.3); r.ps[1] = Point(len, 0.3); r.ps[2] = Point(len, NOISE[k]);
+    Polygon s = r.simplify();
+    for (size_t i = 1; i < s.size(); ++i)
+      if (s.ps[i].x != s.ps[i - 1].x && s.ps[i].y != s.ps[i - 1].y) { printf("simplify() of (0,0.3)->(%d,0.3)->(%d,%.17g) yields a slanted segment (%.17g,%.17g)->(%.17g,%.17g)\n", len, len, NOISE[k], s.ps[i-1].x, s.ps[i-1].y, s.ps[i].x, s.ps[i].y); bad++; }
+  }
+  if (bad) { printf("REPRODUCED: %d orthogonal route(s) lose a bend\n", bad); return 1; }
+  printf("not reproduced\n"); return 0;
+}
+'''
+
+
+def replay_simplify(job, obl, inputs, workdir):
+    lib = build_lib("libavoid", workdir)
+    rc, out = native_run(REPLAY_SIMPLIFY, workdir, "replay_simplify", extra=["-I", COLA], libs=[lib])
+    if rc is None:
+        return False, out
+    return rc == 1, out
+
+
 def jobs(tier):
     js = []
     pre = prelude("avoid_geomtypes.h")
@@ -145,19 +173,46 @@ def jobs(tier):
                   slices=[ecs, frag, od, odc], replay=replay_bends_scene, flags=["--sat-solver", "cadical"], backend="sat:cadical",
                   domain="all finite doubles, every costTarDirs bit set, with or without a previous point; bends replaced by its contract",
                   expect=[r'w_bendcount\.postcondition', r'w_bends\.precondition|precondition']))
+    # ---- Polygon::simplify: the decision to drop a route point (expression fragment), vecDir behind a contract that demands tolerance 0
+    simp = slice_func("libavoid/geomtypes.cpp", r'^Polygon Polygon::simplify\(void\) const', "Polygon::simplify")
+    hdr_, sbody = fragment_loop(simp, r'for \(size_t j = 2; j < simplified\.size\(\); \)', "Polygon::simplify [loop body]")
+    cond = fragment_condition(sbody, 0, "Polygon::simplify [condition under which a point is dropped]")
+    vd_decl = slice_func("libavoid/geometry.h", r'^static inline int vecDir\(const Point& a, const Point& b, const Point& c,', "vecDir (signature and default argument only)")
+    poly_pre = prelude("avoid_polygon.h")
+    layout.check_layout("avoid_polygon05", pre + poly_pre, ["libavoid/geomtypes.h"], [("Avoid::Polygon", ["_id", "ps", "ts", "checkpointsOnRoute"])], sizes=["Avoid::Polygon"])
+    # vecDir's real signature (with its default tolerance) in front of a one-line shim body
+    sig = vd_decl.text[:vd_decl.text.index("{")]
+    cxx3 = ("#include <verif_base.h>\n#include <cfloat>\n" + pre + poly_pre + 'extern "C" int w_vecDir(void *a, void *b, void *c, double maybeZero);\n'
+            "namespace Avoid {\n" + sig + "{ return w_vecDir((void *)&a, (void *)&b, (void *)&c, maybeZero); }\n"
+            "static bool verif_simplify_drops(Polygon& simplified, size_t j)\n{\n" +
+            # closure: scalar locals declared before the loop are carried along verbatim (a tolerance introduced there must reach vecDir's contract)
+            "".join("    " + d.replace("std::numeric_limits<double>::epsilon()", "DBL_EPSILON") + "\n"
+                    for d in scalar_local_decls(simp, r'for \(size_t j = 2; j < simplified\.size\(\); \)') if "checkpoints" not in d) +
+            "    return (" + cond.text + ");\n}\n}\n"
+            'extern "C" bool w_simplify_drops(void *poly, size_t j) { return Avoid::verif_simplify_drops(*(Avoid::Polygon *)poly, j); }\n')
+    js.append(Job("simplify_drop_condition", "U", spec, "h_simplify_cond", cxx=cxx3, enforce="w_simplify_drops", replace=["w_vecDir"], defines=["JOB_simplify_cond"],
+                  slices=[simp, sbody, cond, vd_decl], replay=replay_simplify,
+                  domain="all doubles, every route length, every index j; vecDir replaced by its contract over an uninterpreted orientation, tolerance 0 demanded at the call site",
+                  expect=[r'w_simplify_drops\.postcondition', r'w_vecDir\.precondition|precondition']))
     return js
 
 
 LEVEL = "proof"
 TRUSTED = [
-    "cbmc/goto-cc/goto-instrument 6.11.0 and the MiniSat back end",
+    "cbmc/goto-cc/goto-instrument 6.11.0; MiniSat and CaDiCaL back ends",
     "tools/minb.py: the search oracle for the true minimum number of bends (13x13 grid; sign-class invariance asserted at two offsets)",
-    "extraction: verbatim function text from cola/libavoid/makepath.cpp; COLA_ASSERT mapped to __CPROVER_assert; nothing else substituted",
+    "extraction: verbatim function text from cola/libavoid/makepath.cpp and geomtypes.cpp; COLA_ASSERT mapped to __CPROVER_assert; middle fragment of estimatedCostSpecific "
+    "(its free variables become parameters); expression fragment of Polygon::simplify (the condition of the if inside its loop, closed under the scalar locals declared before the loop)",
+    "prelude/avoid_geomtypes.h, avoid_polygon.h (layout cross-checked on every run)",
 ]
 ASSUMPTIONS = [
-    "bends() is only called with single-bit directions and curr != dest (the call site in estimatedCostSpecific guarantees dist > 0 and a single-bit currDir)",
-    "NOT decided here (residue): the visibility graph contains an optimal path, turn pruning never loses it, emitted segments are axis-parallel, agreement with a grid-search oracle on scenes",
+    "bends() is only called with single-bit directions and curr != dest: checked as call-site preconditions in the estimatedCost_bendcount job",
+    "estimatedCostSpecific: the last two lines (cost = distance + bendCount x segmentPenalty) are not restated; the claim is about the bend count it charges",
+    "Polygon::simplify: only the decision to drop a point is under contract (exact collinearity, tolerance 0 at the call site); vector erase and checkpoint renumbering are not",
+    "NOT decided (residue): the visibility graph contains an optimal path, turn pruning never loses it (its transposition symmetry is an obligation of the C20 check), "
+    "every raw route segment is axis-parallel, agreement with a grid-search oracle on scenes",
 ]
-EXPLANATION = ("Contract on the real Avoid::bends (helpers inlined): for every input of the domain the returned estimate is "
-               "<= the true free-space minimum number of bends computed by an independent search; free-space minimum <= minimum with obstacles, "
-               "hence the estimate is admissible.")
+EXPLANATION = ("Contracts on the real libavoid bend estimator: Avoid::bends (helpers inlined) never exceeds the true free-space minimum number of bends from an independent search "
+               "oracle, for all non-NaN doubles and all 16 direction pairs; the bend count charged by estimatedCostSpecific (bends behind its contract, call-site preconditions "
+               "checked) is admissible for every set of permitted arrival directions; Polygon::simplify drops a route point iff it is exactly collinear (no tolerance), so "
+               "orthogonal bends survive into the display route.")
